@@ -17,6 +17,7 @@ import json
 import os
 import re
 import subprocess
+import threading
 import time
 from concurrent.futures import ThreadPoolExecutor
 
@@ -106,9 +107,21 @@ def run_one(exe, args, env=None, wall=1800, stdin=None):
         return -999, (ex.stdout or b'').decode('utf-8', 'replace'), (ex.stderr or b'').decode('utf-8', 'replace')
 
 
+# circuit breaker: once this many cases of one check process have crashed or timed out the verdict is decided (violated, every one of them
+# goes through the known-findings matching); the remaining shards are skipped instead of spending a CPU budget per case on a tree where
+# every case hangs
+ABNORMAL_LIMIT = 150
+_abnormal = 0
+_abnormal_lock = threading.Lock()
+
+
 def run_shard(exe, base_args, shard, nshards, cases, seed, env=None, wall=1800, max_crashes=12):
+    global _abnormal
     res = ShardResult()
     start = 0
+    if _abnormal >= ABNORMAL_LIMIT:
+        res.diag.append('shard %d skipped: %d cases of this run already crashed or timed out' % (shard, _abnormal))
+        return res
     while True:
         args = ['--seed', seed, '--shard', shard, '--nshards', nshards, '--cases', cases, '--start', start] + list(base_args)
         res.cmd = [exe] + [str(a) for a in args]
@@ -136,7 +149,9 @@ def run_shard(exe, base_args, shard, nshards, cases, seed, env=None, wall=1800, 
             kind, site = parse_report(err)
             res.crashes.append(dict(case=case, desc=desc, kind=kind or 'abort', site=site or 'unknown-site',
                                     report=err[-6000:], args=args))
-        if len(res.crashes) + len(res.timeouts) >= max_crashes or case < 0:
+        with _abnormal_lock:
+            _abnormal += 1
+        if len(res.crashes) + len(res.timeouts) >= max_crashes or case < 0 or _abnormal >= ABNORMAL_LIMIT:
             res.diag.append('shard %d stopped after %d crashing cases' % (shard, max_crashes))
             break
         start = case + 1
